@@ -545,6 +545,17 @@ def run(index, rep, tier):
         pr = index.function(DIO + "phylipreader.PhylipReader._read")
         g = cfg_of(pr)
         lv = [norm(a.targets[0]) for a in walk_no_nested(pr.node) if isinstance(a, ast.Assign) and isinstance(a.value, ast.Call) and call_name(a.value) == "get_lines"]
+        # ... or through a comprehension that drops empty / blank items: then only the k written lines remain
+        filt = [a for a in walk_no_nested(pr.node) if isinstance(a, ast.Assign) and isinstance(a.value, ast.ListComp) and len(a.value.generators) == 1 and isinstance(a.value.generators[0].iter, ast.Call) and call_name(a.value.generators[0].iter) == "get_lines"]
+        if not lv and len(filt) == 1:
+            gen = filt[0].value.generators[0]
+            tv = norm(gen.target)
+            drops_blank = any(norm(c) in (tv, tv + ".strip()", "len(%s)" % tv, "%s != ''" % tv) for c in gen.ifs)
+            if not drops_blank or norm(filt[0].value.elt) not in (tv, tv + ".strip()", tv + ".rstrip()"):
+                raise AnalysisError("R09.15: the filter applied to get_lines(...) in PhylipReader._read is not modelled")
+            lv = [norm(filt[0].targets[0])]
+            items = k
+            how = norm(filt[0].value)[:60]
         if len(lv) != 1:
             raise AnalysisError("R09.15: PhylipReader._read no longer obtains its lines from get_lines")
         lenexpr = "len(%s)" % lv[0]
@@ -655,3 +666,43 @@ def run(index, rep, tier):
             rep.check(is_folded(st.targets[0].slice), "R09.19", gt.qualname, "title recorded case-sensitively: %s" % norm(st.targets[0])[:50], fn_where(gt, st), "the recorded key is the folded title",
                       "NexusWriter._get_block_title records the title under `%s`: the probe for the next block must find titles that differ only in case" % norm(st.targets[0])[:60])
         rep.floor("R09.19", "case-folding title comparisons in the reader", 2, folded_reads)
+
+    # ---- R09.20 the FORMAT statement is composed for the matrix at hand
+    with rep.section("R09.20"):
+        rep.rule("R09.20", "what the NEXUS writer composes for a matrix is a function of that matrix: the _compose_* methods store nothing on the writer (a FORMAT string remembered per data type would give the second STANDARD matrix of a document the first one's SYMBOLS)")
+        ncomp = 0
+        for m in index.klass(XW).methods.values():
+            if not m.name.startswith("_compose"):
+                continue
+            ncomp += 1
+            ws = [w for w in writes_in(m.node) if w.base is not None and (norm(w.base) == "self" or norm(w.base).startswith("self."))]
+            rep.check(not ws, "R09.20", m.qualname, "compose method stores on the writer: %s" % (norm_stmt(ws[0].stmt)[:50] if ws else ""), fn_where(m, ws[0].stmt if ws else None), "%s stores nothing on the writer" % m.name,
+                      "NexusWriter.%s keeps state on the writer (`%s`): what it composes depends on the matrix it is given - for standard data on that matrix's own state alphabets - so anything remembered from one matrix is wrong for the next block of the same kind in the same document" % (m.name, norm_stmt(ws[0].stmt)[:60] if ws else ""))
+        rep.floor("R09.20", "compose methods of the NEXUS writer", 1, ncomp)
+
+    # ---- R09.21 a tokenizer mode setter undoes what it does
+    with rep.section("R09.21"):
+        rep.rule("R09.21", "a tokenizer mode setter undoes exactly what it does: for set_capture_eol and set_hyphens_as_captured_delimiters every character the on-branch adds to a delimiter set is discarded from that same set by the off-branch, and every character the on-branch discards is added back by the off-branch or was never a member to begin with")
+        nt = index.klass("dendropy.dataio.nexusprocessing.NexusTokenizer")
+        nset = 0
+        for name in ("set_capture_eol", "set_hyphens_as_captured_delimiters"):
+            m = nt.methods[name]
+            top = [st for st in m.node.body if isinstance(st, ast.If)]
+            if len(top) != 1 or not top[0].orelse:
+                raise AnalysisError("R09.21: %s is not a single on/off conditional" % m.qualname)
+            def ops(block):
+                add, dis = set(), set()
+                for st in block:
+                    for c in ast.walk(st):
+                        if isinstance(c, ast.Call) and isinstance(c.func, ast.Attribute) and norm(c.func.value).startswith("self.") and c.args and isinstance(c.args[0], ast.Constant):
+                            if c.func.attr == "add":
+                                add.add((norm(c.func.value), c.args[0].value))
+                            elif c.func.attr in ("discard", "remove"):
+                                dis.add((norm(c.func.value), c.args[0].value))
+                return add, dis
+            on_add, on_dis = ops(top[0].body)
+            off_add, off_dis = ops(top[0].orelse)
+            nset += 1
+            rep.check(on_add == off_dis and bool(on_add), "R09.21", m.qualname, "off-branch does not discard what the on-branch adds", fn_where(m), "%s: on adds %s, off discards the same" % (name, sorted(on_add)),
+                      "%s adds %s when switched on but discards %s when switched off: the mode cannot be switched back, so once a CHARSET statement has made `-` a token (or an interleaved matrix has made line ends tokens) it stays one for the rest of the document - a later negative number is read as two tokens" % (m.qualname, sorted(on_add), sorted(off_dis)))
+        rep.floor("R09.21", "mode setters of the NEXUS tokenizer", 2, nset)
